@@ -49,8 +49,8 @@ new.append(entry("C02",
     functions=OPS + ["types.(*Date).UnmarshalUT0311L0x", "types.(*DateTime).UnmarshalUT0311L0x", "types.(*SystemDate).UnmarshalUT0311L0x", "types.(*SystemTime).UnmarshalUT0311L0x",
                      "types.(*HHmm).UnmarshalUT0311L0x", "types.(*PIN).UnmarshalUT0311L0x", "types.(*SerialNumber).UnmarshalUT0311L0x", "types.(*Version).UnmarshalUT0311L0x",
                      "types.(*MacAddress).UnmarshalUT0311L0x", "encoding/bcd.Decode"],
-    scope=[OPRE + r"ensures:(result|accept)$", OPRE + r"requires:", r"^types\.\(\*\w+\)\.UnmarshalUT0311L0x#", r"^encoding/bcd\.Decode#"],
-    scope_exclude=[r"#ensures:civil$"], replay=ops_replay(("result", "result"), ("accept", "result")) + WIRE_REPLAY,
+    scope=[OPRE + r"ensures:(result|accept|complete)$", OPRE + r"requires:", r"^types\.\(\*\w+\)\.UnmarshalUT0311L0x#", r"^encoding/bcd\.Decode#"],
+    scope_exclude=[r"#ensures:civil$"], replay=ops_replay(("result", "result"), ("accept", "result"), ("complete", "result")) + WIRE_REPLAY,
     pinned_file="pins_uhppote.json", pinned_labels=["contract", "macro"],
     assumptions=COMMON_ASSUME,
     explanation="The `result` postcondition of every operation states each returned field as a function of the reply bytes R (offset and encoding from the protocol table) and the sentinels; `accept` states the domain conditions under which a reply may be turned into a result at all (boolean bytes 0/1, event type != 0xff, echoed card/profile). The per-type decoders are verified against contracts that make out-of-domain bytes an error or the zero value."))
@@ -72,9 +72,9 @@ new.append(entry("C06",
                  "ut0311.Broadcast (discovery): a goroutine reads the replies - outside the sequential subset"],
     explanation="`route`: the one request of an operation goes to the driver method and endpoint given by the routing macro `routed` (configured usable address: SendUDP, or SendTCP when Protocol == \"tcp\"; otherwise BroadcastTo the configured broadcast address, 255.255.255.255:60000 when none is configured)."))
 new.append(entry("C07",
-    functions=OPS + ["uhppote.isWiegand26", "uhppote.isCardNumberValid"],
-    scope=[OPRE + r"ensures:(reject|once)$", OPRE + r"requires:", r"^uhppote\.isWiegand26#", r"^uhppote\.isCardNumberValid#"],
-    replay=ops_replay(("reject", "reject"), ("once", "reject"), ("w26", "reject"), ("valid", "reject")),
+    functions=OPS + ["uhppote.isWiegand26", "uhppote.isCardNumberValid", "types.(HHmm).Before", "types.(HHmm).After"],
+    scope=[OPRE + r"ensures:(reject|once)$", OPRE + r"requires:", r"^uhppote\.isWiegand26#", r"^uhppote\.isCardNumberValid#", r"^types\.\(HHmm\)\.(Before|After)#ensures:order$"],
+    replay=ops_replay(("reject", "reject"), ("once", "reject"), ("w26", "reject"), ("valid", "reject")) + [{"match": "types.(HHmm)", "driver": "types_order", "pkg": "types", "case": "all"}],
     pinned_file="pins_uhppote.json", pinned_labels=["contract", "macro"],
     assumptions=COMMON_ASSUME + ["fmt.Sprintf(\"%08v\", uint32) = decimal digits zero-padded to 8 (digit witnesses); strconv.Atoi of an all-digit string is its decimal value"],
     explanation="`reject`: invalid arguments (the INVALID predicate transcribed from the property statement) give an error with the ghost trace `sent` unchanged; `once`: every other argument tuple (in the encodable domain) sends exactly one request, i.e. a call is rejected only for the listed reasons. Wiegand-26 is the arithmetic predicate card/100000 <= 255 && card%100000 <= 65535."))
@@ -85,6 +85,8 @@ INLINED_ONLY = "reflective codec function: analysed on its real body inlined int
 new.append(entry("C04",
     functions=OPS + ["uhppote.sendto$1", "uhppote.(*uhppote).udpBroadcastTo$1"] + ["messages.lemmaDecode" + t for t in open(os.path.join(SPEC, "message_types.txt")).read().split()],
     replay=[{"match": "types.(ControlState)", "driver": "types_render", "pkg": "types", "case": "all"},
+            {"match": "(*Weekdays).UnmarshalJSON", "driver": "types_text", "pkg": "types", "case": "weekdays"},
+            {"match": "(*Segments).UnmarshalJSON", "driver": "types_text", "pkg": "types", "case": "segments"},
             {"match": "messages.lemmaDecode", "driver": "messages_decode", "pkg": "messages", "case": "all"}],
     sweep=["types", "uhppote", "messages", "encoding/bcd", "encoding/UTO311-L0x"],
     sweep_exclude={
@@ -107,8 +109,6 @@ new.append(entry("C04",
         "types.(Task).String": "calls TaskType.String (see there)",
         "types.(CardFormat).String": "string table indexed by a request-only enum (0..1 from the library's parser)",
         "types.(*CardFormat).UnmarshalConf": "map with string keys is outside the engine's map model",
-        "types.(*Segments).UnmarshalJSON": "loop over a decoded JSON map needs an invariant (C14, not built)",
-        "types.(*Weekdays).UnmarshalJSON": "loop over a decoded JSON map needs an invariant (C14, not built)",
     },
     scope=[SAFETY],
     assumptions=COMMON_ASSUME + ["a method is called on a non-nil receiver unless its contract says otherwise", "library functions do not panic when their assumed preconditions (libpre obligations) hold",
@@ -196,18 +196,21 @@ new.append(entry("C15",
 new.append(entry("C14", level="other",
     functions=["types.(HHmm).String", "types.HHmmFromString", "types.(HHmm).MarshalJSON", "types.(*HHmm).UnmarshalJSON", "types.(*ControlState).UnmarshalJSON",
                "types.(Date).MarshalJSON", "types.(*Date).UnmarshalJSON", "types.ParseDate",
-               "types.lemmaTextHHmm", "types.lemmaJSONHHmm", "types.lemmaJSONControlState", "types.lemmaJSONDate", "types.lemmaJSONDateTime"] +
+               "types.lemmaTextHHmm", "types.lemmaJSONHHmm", "types.lemmaJSONControlState", "types.lemmaJSONDate", "types.lemmaJSONDateTime",
+               "types.(*Weekdays).UnmarshalJSON", "types.(*Segments).UnmarshalJSON"] +
               ["types.Parse%sAddr" % r for r in ROLES] + ["types.lemma%sAddrText" % r for r in ROLES],
     scope=[r"^types\."],
     pinned_file="pins_types.json", pinned_labels=["contract", "macro"],
     replay=[{"match": "HHmm", "driver": "types_text", "pkg": "types", "case": "hhmm"},
             {"match": "lemmaJSONDateTime", "driver": "types_text", "pkg": "types", "case": "datetime"},
+            {"match": "(*Weekdays).UnmarshalJSON", "driver": "types_text", "pkg": "types", "case": "weekdays"},
+            {"match": "(*Segments).UnmarshalJSON", "driver": "types_text", "pkg": "types", "case": "segments"},
             {"match": "types.", "driver": "types_text", "pkg": "types", "case": "all"}],
     assumptions=["encoding/json on strings is an abstract quoting (spec/json.spec): json.Marshal of a Go string yields bytes that are a JSON string with that content, json.Unmarshal of such bytes into a *string yields the content; bytes that are not a JSON string give an error or an arbitrary string",
                  "regular expressions of the form ^...$ with fixed-width digit groups are modelled exactly; strconv.Atoi of an all-digit string is its value; fmt.Sprintf(%02d:%02d) and time.Format(2006-01-02) yield the digit groups; time model as for C13",
                  "zone designations (layout element MST of time.Format / time.Parse; spec/time.spec): every designation Format writes is 'UTC', an alphabetic abbreviation or sign+hours (both accepted by the layout MST) or sign+hours+minutes such as +0330 (rejected by MST, accepted by -0700); the abbreviation in force at an instant, looked up at that instant's civil time, yields the offset in force (Go documents this as imperfect in the repeated hour of a zone that uses one abbreviation for both offsets); a numeric designation states the offset in force. Bounded conformance: replay driver types_text/datetime, 33 zones x every hour of 3 years, thorough tier"],
     bounded=[],
-    not_decided=["Card, TimeProfile, Task, Weekdays, Segments (their UnmarshalJSON delegates to encoding/json's reflective struct/map decoding, which has no contract in the engine)",
+    not_decided=["Card, TimeProfile, Task (their UnmarshalJSON delegates to encoding/json's reflective struct/map decoding, which has no contract in the engine); for Weekdays and Segments only 'decodes into a nil map without panicking and leaves a map' is decided, not the value",
                  "DateTime JSON for values held in a zone other than the process zone or UTC (their abbreviation means nothing to the decoding process: the instant is not kept - by design of the format), and the reject side of DateTime JSON; Version (fmt.Sscanf), MacAddress (net.ParseMAC), TaskType by name and CardFormat (case-folding regular-expression rewriting), PIN (variable-width decimal text), SystemTime text form",
                  "JSON forms of the address types (the text round trip is decided: lemma<Role>AddrText)"],
     explanation="Decided for the leaf types whose parser is repository code over a string: HH:mm (String/HHmmFromString and JSON: accepted exactly for dd:dd with hours <= 24, minutes <= 59, not 24:mm with mm != 0; everything else of that JSON-string form rejected; decode(encode(v)) == v), door control state JSON (exactly the three names; anything else rejected), Date JSON and text (blank <-> zero value, impossible dates rejected, civil value kept whenever the day exists in the zone), DateTime JSON (decode(encode(v)) is the same instant, to the second, for every v held in the process zone or in UTC, in every process zone - under the assumed model of zone designations), and the four address types' text forms. Level 'other': the property lists more types than contracts can reach."))
